@@ -1,9 +1,11 @@
 #!/bin/bash
-# mutant_matrix.sh [ids...]: run every seeded change against the check of its own property; results in seeded/MATRIX.txt
-cd /verif
-ids="$@"; [ -z "$ids" ] && ids=$(ls seeded | grep -E '^C[0-9]{2}[ab]$')
+# mutant_matrix.sh [ids...]: run every seeded change against the check of its own property; one line per change
+# on stdout and in MATRIX.txt next to this script's parent (honours VERIF_REPO)
+cd "$(dirname "$0")/.."
+ids="$@"; [ -z "$ids" ] && ids=$(ls seeded | grep -E '^C[0-9]{2}[a-z]$')
+: > MATRIX.txt
 for m in $ids; do
   p=${m:0:3}
   r=$(tools/run_mutant.sh $m $p 2>&1 | tail -1)
-  echo "$r" | tee -a /tmp/matrix.txt
+  echo "$r" | tee -a MATRIX.txt
 done
